@@ -17,6 +17,7 @@
 import BumpProof.Coll.Split
 import BumpProof.Lemmas.CollSplit
 import BumpProof.Lemmas.CollPrim
+import BumpProof.Coll.Zst
 
 namespace C16
 open Coll
@@ -200,6 +201,20 @@ theorem partition_partitions (lay : Lay) (bombs : List Id) (p : Part) (xs : List
     refine ⟨_, _, _, rfl, ?_⟩
     simp only
     refine ⟨by simp [Vec.abs, setLen, idsOf], ys', by simp [setLen, hdl], hperm⟩
+
+/-- zero-sized elements (by counts): `split_off` is defined exactly for `start ≤ end ≤ len`, the lengths of
+    the two parts add up, the returned part has `end - start` values, and `merge` is the inverse -/
+theorem zst_split_off_partitions (v : Zst.ZVec) (start end_ : Nat) :
+    (match Zst.splitOff v start end_ with
+     | none => start > end_ ∨ end_ > v.len
+     | some (s, o) => start ≤ end_ ∧ end_ ≤ v.len ∧ o.len = end_ - start ∧ s.len + o.len = v.len ∧
+                      (Zst.merge s o).len = v.len ∧ (Zst.merge s o).total = v.total) := by
+  unfold Zst.splitOff
+  by_cases h : start > end_ ∨ end_ > v.len
+  · rw [if_pos h]; exact h
+  · rw [if_neg h]
+    simp only [Zst.merge, Zst.ZVec.total]
+    refine ⟨by omega, by omega, trivial, by omega, by omega, by omega⟩
 
 /-- non-vacuity: a `FixedBumpVec` holding 1..6 with capacity 8 at address 4096, 16-byte elements:
     `split_off(1..3)` rotates the range to the front; capacities 2 + 6 -/
